@@ -52,24 +52,37 @@ func (rt *runtime) newNativeFunctionObject(name, file string, line int, native n
 	o := rt.newNativeFunctionProperty(name, file, line, native, length)
 	o.defineOwnProperty("caller", property{
 		value: propertyGetSet{
-			rt.newNativeFunctionProperty("get", "internal", 0, func(fc FunctionCall) Value {
-				for sc := rt.scope; sc != nil; sc = sc.outer {
-					if sc.frame.fn == o {
-						if sc.outer == nil || sc.outer.frame.fn == nil {
-							return nullValue
-						}
-
-						return rt.toValue(sc.outer.frame.fn)
-					}
-				}
-
-				return nullValue
-			}, 0),
+			rt.newNativeFunctionProperty("get", "internal", 0, functionCallerGetter, 0),
 			&nilGetSetObject,
 		},
 		mode: 0o000,
 	}, false)
 	return o
+}
+
+// functionCallerGetter is the getter of the "caller" property of function objects.
+// It takes the runtime and the function from the call, not from a closure, so that
+// it keeps working on the function objects of a cloned runtime.
+func functionCallerGetter(fc FunctionCall) Value {
+	rt := fc.runtime
+	fn := fc.This.object()
+	for fn != nil && !fn.isCall() {
+		fn = fn.prototype
+	}
+	if fn == nil {
+		return nullValue
+	}
+	for sc := rt.scope; sc != nil; sc = sc.outer {
+		if sc.frame.fn == fn {
+			if sc.outer == nil || sc.outer.frame.fn == nil {
+				return nullValue
+			}
+
+			return rt.toValue(sc.outer.frame.fn)
+		}
+	}
+
+	return nullValue
 }
 
 // bindFunctionObject.
@@ -128,19 +141,7 @@ func (rt *runtime) newNodeFunctionObject(node *nodeFunctionLiteral, stash stashe
 	o.defineProperty(propertyLength, intValue(len(node.parameterList)), 0o000, false)
 	o.defineOwnProperty("caller", property{
 		value: propertyGetSet{
-			rt.newNativeFunction("get", "internal", 0, func(fc FunctionCall) Value {
-				for sc := rt.scope; sc != nil; sc = sc.outer {
-					if sc.frame.fn == o {
-						if sc.outer == nil || sc.outer.frame.fn == nil {
-							return nullValue
-						}
-
-						return rt.toValue(sc.outer.frame.fn)
-					}
-				}
-
-				return nullValue
-			}),
+			rt.newNativeFunction("get", "internal", 0, functionCallerGetter),
 			&nilGetSetObject,
 		},
 		mode: 0o000,
